@@ -345,6 +345,7 @@ def oracle(case, obs, check=("sem", "md", "edges", "refs", "early", "emitwait", 
                         outs = orc[d].feed((who, v, tags))
                     except oracle_graph.OracleError as oe:
                         outs = []
+                        any_error = True        # (also when a coroutine-style node captured it and no emit reported it: flush)
                         still_pending = case["mode"] == "async" and op["op"] == "emit" and (o.get("emits") or ["done"])[-1] == "pending"
                         if case["mode"] == "async" and op["op"] != "emit" and any(nd["kind"] == "partition" for nd in nodes):
                             # collect.flush() drops the awaitables of its emission: an exception captured by a
